@@ -1,6 +1,7 @@
 import PolyVerif.Model.GenbankBuild
 import PolyVerif.Spec.GbStrict
 import PolyVerif.Spec.GbRoundTrip
+import PolyVerif.Driver.C01
 /-
 C03 driver.  Cases:
   `rec <record fields>` : a structured record (canonical serialisation, see harness ops_c03.go)
@@ -115,6 +116,11 @@ def render (f : List String) : List String :=
   match f with
   | "rec" :: r => "c03rec" :: r
   | ["img", text] => ["c03img", text]
+  | "img01" :: c01case =>
+    -- a file laid out by property C01's independent writer (`GbLayout.layoutFile`, via C01's `render`)
+    match Driver.C01.render c01case with
+    | [_, _, text] => ["c03img", text]
+    | _ => ["bad"]
   | _ => ["bad"]
 
 /-! ### judging -/
@@ -137,6 +143,11 @@ def parsedSame (ym : Genbank.Sequence) (yr : Sequence) : Bool :=
     && Spec.GbRoundTrip.listApprox (fun (f : Genbank.Feature) (g : Feature) =>
           f.type == g.type && f.gbkLoc == g.gbkLocationString && sortedEntries f.attrs == sortedEntries g.attributes)
         ym.features yr.features
+
+def firstLine (s : Str) : Str := s.takeWhile (· != '\n')
+
+/-- `s` with its first line replaced by `l` -/
+def withFirstLine (l s : Str) : Str := l ++ s.dropWhile (· != '\n')
 
 /-- an iteration order different from the insertion order -/
 def otherOrders : MapOrders := { other := [3, 1, 4, 1, 5, 9, 2, 6, 5, 3, 5], quals := fun i => [i, 2, 7, 1, 8, 2, 8, 1, 8] }
@@ -243,7 +254,7 @@ def judgeRec (kind : String) (x : Sequence) (tail : List String) : Verdict :=
       | .panic, "panic", _ => true
       | _, _, _ => false
     -- `img`: the cached location text the real parser reported must denote the structure it reported
-    let cacheOk := kind != "img" || x.features.all fun f => f.gbkLocationString == [] || cacheConsistent f
+    let cacheOk := kind == "rec" || x.features.all fun f => f.gbkLocationString == [] || cacheConsistent f
     let corr := outL == m && m2 == m && pcorr && cacheOk
     let layoutDom := wfLayoutJ x
     let rtDom := wfSeqJ x
@@ -259,10 +270,11 @@ def judgeRec (kind : String) (x : Sequence) (tail : List String) : Verdict :=
     -- only when the implementation returned exactly that
     let xe := expectedBack x
     let anyKf := clsBlankRun x || clsNameless x
-    let c3K := if clsNameless x then
-                 (match got with
-                  | some r => r.blocks == (abs xe).blocks && r.feats == (abs xe).feats && r.origin == (abs xe).origin
-                  | none => true)
+    -- name-less record WITH a length: the reader must return exactly the predicted record (name = the length);
+    -- WITHOUT a length the LOCUS line `LOCUS   bp …` has no place for `bp`: the reader must reject the text as it
+    -- is, and must return the predicted record once that one line is replaced by the LOCUS line of the prediction
+    let c3K := if clsNameless x && x.metadata.locus.sequenceLength == [] then
+                 got == none && strictRead (withFirstLine (firstLine (build xe MapOrders.id)) outL) == some (abs xe)
                else got == some (abs xe)
     let c4K := pst == "ok" && wrst == "same" && (match y with | some y => seqEquiv xe y && codingOk xe y | none => false)
     let kf := if anyKf && c2 && c3K && (!rtDom || c4K) then
@@ -305,19 +317,35 @@ def judge (f out : List String) : Verdict :=
     match decodeRec r with
     | some (x, []) => judgeRec "rec" x tail
     | _ => { corr := false, judge := none, cls := "bad-case", detail := "bad case" }
-  | ["img", _], "ok" :: "x" :: rest =>
+  | "img" :: _, "ok" :: "x" :: rest =>
     match decodeRec rest with
     | some (x, tail) => judgeRec "img" x tail
     | none => { corr := false, judge := none, cls := "img/bad-reply", detail := "bad reply" }
-  | ["img", _], st :: _ =>
-    -- the real parser rejected / crashed on the text: not a record in the image of the parser
-    { corr := true, judge := none, cls := "img/not-parsed:" ++ st, detail := "" }
-  | "rec" :: r, st :: _ =>
-    -- Build itself failed: a violation when the record is in the domain
-    match decodeRec r with
-    | some (x, []) => { corr := false, judge := if wfLayoutJ x then some false else none, cls := "rec/build-" ++ st,
-                        detail := "Build did not return: " ++ st }
-    | _ => { corr := false, judge := none, cls := "bad-case", detail := "bad case" }
+  | "img01" :: _, "ok" :: "x" :: rest =>
+    match decodeRec rest with
+    | some (x, tail) => judgeRec "img01" x tail
+    | none => { corr := false, judge := none, cls := "img/bad-reply", detail := "bad reply" }
+  | kind :: args, st :: _ =>
+    if kind == "img" || kind == "img01" then
+      -- the real parser did not return on a text that the framework's own writers laid out.  The parser MODEL
+      -- (C01) decides: if it (and C02's parseLocation on every location text) parses the text, this is a failure
+      -- of the real code on a well-formed file — FAIL, not a silent skip; if the model panics too, the text is
+      -- outside the parser's image (C01's subject) and the two agree.
+      let text : Str := match render f with | [_, t] => t.toList | _ => []
+      let modelOk := match Genbank.parse text with
+        | .ok ym => !(ym.features.any fun ft => match Location.parseLocation ft.gbkLoc with | .panic => true | _ => false)
+        | _ => false
+      if modelOk then
+        { corr := false, judge := some false, cls := kind ++ "/not-parsed:" ++ st,
+          detail := "genbank.Parse did not return (" ++ st ++ ") on a well-formed file that the parser model reads" }
+      else { corr := true, judge := none, cls := kind ++ "/not-parsed-model-agrees:" ++ st, detail := "" }
+    else if kind == "rec" then
+      -- Build itself failed: a violation when the record is in the domain
+      match decodeRec args with
+      | some (x, []) => { corr := false, judge := if wfLayoutJ x then some false else none, cls := "rec/build-" ++ st,
+                          detail := "Build did not return: " ++ st }
+      | _ => { corr := false, judge := none, cls := "bad-case", detail := "bad case" }
+    else { corr := false, judge := none, cls := "bad-case", detail := "bad case" }
   | _, _ => { corr := false, judge := none, cls := "bad-case", detail := "bad case" }
 
 def driver : PropDriver := { render, judge }
